@@ -206,26 +206,7 @@ def check_episode(env, sink, sink2, lo, lo2, plan, idmap, kinds, quotes, trace, 
             msgs.append("last call did not report done")
         if any(c[2] for c in calls[:-1]):
             msgs.append("done reported before the last timestep")
-    # track-record stamps: entry k-1 carries the time of the latest event processed before execution k
-    tr = env.broker.track_record
-    if len(tr) != steps_taken:
-        msgs.append("track record has %d entries after %d steps" % (len(tr), steps_taken))
-    else:
-        last = None
-        pre = {}
-        for pi, (ph_kind, ents) in enumerate(phases):
-            if pi >= 1:
-                t = last
-                for e in ents:
-                    if e[3] == pi - 1:
-                        t = e[2]
-                pre[pi - 1] = t
-            for e in ents:
-                last = e[2]
-        for j in range(len(tr)):
-            if pre[j] is not None and tr[j].time != pre[j]:
-                msgs.append("track-record entry %d stamped %s, latest event processed before that execution %s" % (j, tr[j].time, pre[j]))
-                break
+    # (the stamps of the track-record entries are C07's subject and are not judged here)
     # second observer (subscribed to Custom only)
     exp2 = [e[1] for e in log if e[0] == "E" and kinds.get(idmap.get(e[1])) == "Custom"]
     got2 = [e[1] for e in sink2[lo2:]]
